@@ -222,6 +222,14 @@ public:
         m_n = mat.rows();
         // Scale matrix prior to the Schur decomposition
         const Scalar scale = mat.cwiseAbs().maxCoeff();
+        // Zero matrix: eigenvalues are zero, eigenvectors the identity (as in TridiagEigen)
+        if (scale == Scalar(0))
+        {
+            m_eivalues.setZero(m_n);
+            m_eivec.setIdentity(m_n, m_n);
+            m_computed = true;
+            return;
+        }
 
         // Reduce to real Schur form
         m_schur.compute(mat / scale);
